@@ -153,6 +153,10 @@ func writeFanOut(r *hx.Rng) []hx.Zs {
 }
 
 func gen(r *hx.Rng, tier string, i int) []hx.Zs {
+	if i%14 == 13 {
+		// a notification round held in its first write while a later subscriber is disconnected
+		return stack.RoundOverlap(r)
+	}
 	if i%14 == 6 {
 		// an entity announced again without its features, then torn down
 		return stack.Reannounce(r)
